@@ -3,4 +3,4 @@ Require Extraction.
 Require Import ExtrOcamlBasic.
 Extraction "model.ml" keep build_app resolve_ix resolve_rule parse_template match_items format_items
   formatter_of index_key_of quote_path requote_path unquote_path_safe normpath redirect_candidates
-  ancestors unquote_dict url_for literal_prefix_ok.
+  ancestors unquote_dict url_for literal_prefix_ok path_safe_dec.
